@@ -198,24 +198,17 @@ Lemma definefun_capture_refuted :
     parse_model capture_text =
       Ok [mkC "define-fun" [AStr "f"; AList [ATerm (TSym "__a0" TBool)]; AType TBool; ATerm body];
           decl "y" TBool; mkC "assert" [ATerm t]] /\
-    forall I, wf_interp I ->
-              eval I t = VBool false /\
-              std_eval (sig_of [("y", TBool)]) I capture_expanded = Some (VBool true).
+    (forall I, eval I t = VBool false) /\
+    exists I, std_eval (sig_of [("y", TBool)]) I capture_expanded = Some (VBool true).
 Proof.
-  eexists. eexists. split; [vm_compute; reflexivity|].
-  intros I [Hwf _]. specialize (Hwf "y" TBool). cbn in Hwf. split.
-  - cbn. emi as [[xs [Hv H]]|_]; [|reflexivity].
+  eexists. eexists. split; [vm_compute; reflexivity|]. split.
+  - intros I. cbn. emi as [[xs [Hv H]]|_]; [|reflexivity].
     exfalso. destruct xs as [|v [|? ?]]; cbn in Hv; try tauto.
     cbn in H. destruct (vbool v); discriminate.
-  - unfold std_eval, capture_expanded.
-    assert (Hsv : forall Sg, all_some (map (sorted_var Sg) [SList [Atom "z"; Atom "Bool"]]) = Some [("z", TBool)])
-      by (intros Sg; vm_compute; reflexivity).
-    cbn [seval]. change ("exists" =? "let") with false. cbn [orb].
-    change ("exists" =? "forall") with false. change ("exists" =? "exists") with true. cbn [orb].
-    rewrite Hsv. emi as [_|H]; [reflexivity|].
-    exfalso. apply H. exists [VBool (negb (vbool (isym I "y" TBool)))]. split; [cbn; auto|].
-    destruct (isym I "y" TBool) as [b| | | | | |] eqn:Ey; try contradiction.
-    cbv -[isym veqb negb]. rewrite Ey, veqb_bool. destruct b; reflexivity.
+  - exists (interp_xy (VBool true) (VBool true)). vm_compute.
+    emi as [_|H]; [reflexivity|].
+    exfalso. apply H. exists [VBool false]. split; [cbn; auto|].
+    vm_compute. emi as [E|_]; [discriminate E | reflexivity].
 Qed.
 
 (* ------------------------------------------------------------------------- 3. agreement on printed text
